@@ -45,8 +45,8 @@ def const(v):
     if tag == 4:
         return '"' + ''.join(chr(c) for c in p) + '"'
     if tag == 5:
-        import datetime
-        return 'cast("%s", date)' % datetime.date.fromordinal(p).isoformat()
+        from . import values
+        return 'cast("%s", date)' % values.dec(v)
     if tag == 13:
         return p
     raise ValueError(v)
